@@ -3,7 +3,7 @@
    every state. *)
 From Comdex Require Import Lib.Base Lib.DecArith Lib.DecFacts Model.Liquidity Proofs.LiquidityProofs
   Proofs.LiquiditySweep Proofs.LiquidityProofs2 Proofs.LiquidityEffects Proofs.LiquidityLists Proofs.LiquidityCustody
-  Proofs.LiquidityFarm Proofs.LiquidityPools.
+  Proofs.LiquidityFarm Proofs.LiquidityPools Proofs.LiquidityMMCancel.
 From Coq Require Import ZifyBool Lia.
 
 (* ---------------- what the leaves do to the supply ---------------- *)
@@ -68,12 +68,15 @@ Lemma se_place t m typ pr price offer fee now t' P :
   SE t -> get_params t (m_app m) = Some P -> find_pair (m_app m) (m_pair m) (pairs t) = Some pr ->
   fee = fee_amt (pr_fee_rate P) offer -> typ = 1 \/ typ = 2 -> place t m typ pr price offer fee now = Ok t' -> SE t'.
 Proof. intros H _ _ _ _ E. eapply se_pframe; [eapply pf_place; eauto|exact H]. Qed.
-Lemma se_drop_mm t app owner pair : SE t -> SE (drop_mm t app owner pair).
-Proof. intros H. exact H. Qed.
+Lemma se_drop_mm t app owner pair : SE t ->
+  (forall ix, find_mm app owner pair (mmidx t) = Some ix -> forall id, In id (mi_ids ix) -> nonlive_at (app, pair, id) t) ->
+  SE (drop_mm t app owner pair).
+Proof. intros H _. exact H. Qed.
 Lemma se_mm_tail t m pr bt st now t' P :
   SE t -> get_params t (mm_app m) = Some P -> find_pair (mm_app m) (mm_pair m) (pairs t) = Some pr ->
+  find_mm (mm_app m) (mm_owner m) (p_id pr) (mmidx t) = None ->
   existsb (fun x : Z * Z * Z => snd x <? 0) (bt ++ st) = false -> mm_tail t m pr bt st now = Ok t' -> SE t'.
-Proof. intros H _ _ _ E. eapply se_pframe; [eapply pf_mm_tail; eauto|exact H]. Qed.
+Proof. intros H _ _ _ _ E. eapply se_pframe; [eapply pf_mm_tail; eauto|exact H]. Qed.
 End SupEq.
 
 (* ---------------- the end block ---------------- *)
